@@ -101,8 +101,9 @@ func value(f Field, correct string) *string {
 	return nil
 }
 
-var alts = map[string]string{"sp-metadata": spkit.SPMetadata, "sp-entity": spkit.SPEntity, "sp-acs": spkit.SPACS, "sp-slo": spkit.SPSLO, "idp-sso": spkit.IDPSSO, "idp-entity": spkit.IDPEntity}
-var altKinds = []string{"sp-metadata", "sp-entity", "sp-acs", "sp-slo", "idp-sso", "idp-entity", "received-at"}
+// (kind "same-path-other-host": the ACS path on another host - what a relative delivery URL must not be taken to match)
+var alts = map[string]string{"same-path-other-host": "https://other-sp.example.net/saml/acs", "other-path-other-host": "https://other-sp.example.net/elsewhere/acs", "sp-metadata": spkit.SPMetadata, "sp-entity": spkit.SPEntity, "sp-acs": spkit.SPACS, "sp-slo": spkit.SPSLO, "idp-sso": spkit.IDPSSO, "idp-entity": spkit.IDPEntity}
+var altKinds = []string{"sp-metadata", "sp-entity", "sp-acs", "sp-slo", "idp-sso", "idp-entity", "received-at", "same-path-other-host", "other-path-other-host"}
 
 // valueAt is value() with the one alternative that depends on the case: "received-at" is the URL at which the
 // message was delivered when that differs from the correct value (the library tolerates it as Destination;
@@ -120,6 +121,11 @@ func receivedAt(c Case) string {
 		return "https://sp.example.com/other/acs"
 	case "acsquery":
 		return spkit.SPACS + "?x=1"
+	case "relative":
+		// what a net/http server hands its handlers: the request target without scheme and host
+		return "/saml/acs"
+	case "relative-other":
+		return "/elsewhere/acs"
 	}
 	return spkit.SPACS
 }
@@ -488,7 +494,7 @@ func gen(t *rapid.T) Case {
 		AsrtSigned:  rapid.Bool().Draw(t, "asrtSigned"),
 		NoEntityID:  rapid.IntRange(0, 3).Draw(t, "noEntity") == 0,
 		Validator:   rapid.SampledFrom([]string{"", "", "", "accept", "reject", "own"}).Draw(t, "validator"),
-		ReceivedAt:  rapid.SampledFrom([]string{"acs", "acs", "other", "acsquery"}).Draw(t, "at"),
+		ReceivedAt:  rapid.SampledFrom([]string{"acs", "acs", "other", "acsquery", "relative", "relative-other"}).Draw(t, "at"),
 		Entry:       rapid.SampledFrom([]string{"xml", "post", "artifact"}).Draw(t, "entry"),
 		Encrypted:   rapid.IntRange(0, 4).Draw(t, "enc") == 0,
 		AllowIDP:    rapid.IntRange(0, 3).Draw(t, "allowidp") == 0,
@@ -572,7 +578,7 @@ func enumDeliveredElsewhere(_ string, emit func(Case)) {
 	ok := Field{Class: "correct"}
 	at := Field{Class: "alt", Kind: "received-at"}
 	for _, entry := range []string{"xml", "post", "artifact"} {
-		for _, where := range []string{"other", "acsquery"} {
+		for _, where := range []string{"other", "acsquery", "relative", "relative-other"} {
 			for _, destIsAt := range []bool{false, true} {
 				for _, rs := range []bool{false, true} {
 					base := Case{RespIssuer: ok, AsrtIssuer: ok, Recipients: []Field{ok}, Audiences: []Field{ok}, Destination: ok, DestIsAt: destIsAt, Status: "success", AsrtSigned: true, RespSigned: rs, ReceivedAt: where, Entry: entry}
@@ -596,6 +602,16 @@ func enumDeliveredElsewhere(_ string, emit func(Case)) {
 					c = base
 					c.AsrtIssuer = at
 					emit(c)
+					if !destIsAt {
+						for _, k := range []string{"same-path-other-host", "other-path-other-host"} {
+							c = base
+							c.Destination = Field{Class: "alt", Kind: k}
+							emit(c)
+							c = base
+							c.Recipients = []Field{{Class: "alt", Kind: k}}
+							emit(c)
+						}
+					}
 				}
 			}
 		}
